@@ -278,7 +278,9 @@ fn helpers(ctx: &mut Ctx) {
             match r {
                 None => { ctx.case(1, "panic", &[&s.bytes(), &key, &pre, &so], &[&[2]]); ctx.fail("panic", det("typed encrypt helper panicked")); }
                 Some((bytes, obs, lay, raw_obs, eq, pre_ct)) => {
-                    ctx.case(1, "typed encrypt helper", &[&s.bytes(), &key, &pre, &so], &[&[0], &bytes, &obs]);
+                    let oversize = s.m == 2 && s.kind == 0 && size > 0x7FFFFF;
+                    ctx.case(1, if oversize { "outside-domain:typed encrypt helper, Wrath size > 0x7FFFFF" } else { "typed encrypt helper" }, &[&s.bytes(), &key, &pre, &so], &[&[0], &bytes, &obs]);
+                    if oversize { /* no wire layout is defined beyond 0x7FFFFF: compared with the model only */ } else
                     if bytes != lay { ctx.fail("helper_vs_raw", det("typed encrypt helper differs from raw encrypt of the wire layout (big-endian size, little-endian opcode)")); }
                     else if obs != raw_obs || !eq { ctx.fail("helper_state", det("cipher state after the typed encrypt helper differs from the state after the raw call")); }
                     // ---- decrypt helper on exactly these bytes (a decrypter in step): header comes back
